@@ -625,7 +625,90 @@ func verifControlBufferReuse[T any](size int) func(Observable[T]) Observable[[]T
 		})
 	}
 }
+
+func verifControlDeadEmission[T any]() func(Observable[T]) Observable[int] {
+	return func(source Observable[T]) Observable[int] {
+		return NewUnsafeObservableWithContext(func(subscriberCtx context.Context, destination Observer[int]) Teardown {
+			n := 0
+			sub := source.SubscribeWithContext(subscriberCtx, NewObserverWithContext(
+				func(ctx context.Context, value T) { n++ },
+				destination.ErrorWithContext,
+				func(ctx context.Context) {
+					destination.CompleteWithContext(ctx)
+					destination.NextWithContext(ctx, n)
+				}))
+			return sub.Unsubscribe
+		})
+	}
+}
 `
+
+// DEAD-EMISSION: a notification that is certainly preceded by a terminal notification to the same destination is
+// always discarded by the destination's subscriber.
+func ruleDeadEmission() check.Rule {
+	return check.Rule{
+		Name:        "DEAD-EMISSION",
+		Doc:         "no operator sends a notification to its destination at a point that every path reaches only after a terminal notification (Error/Complete) to that destination sent from the same function (followed outwards through inlined closures and helpers): the subscriber has closed by then, so the notification - typically the operator's result, e.g. `Complete` written before `Next(result)` - is always dropped",
+		NeedControl: true,
+		Run: func(c *check.Ctx) {
+			m := c.M
+			for _, sc := range m.SCs {
+				armed := c.Armed(sc)
+				// only unconditional terminals count as "certainly sent": a node is a certain terminal when it is a direct
+				// terminal emission, or a call whose callee body passes a certain terminal on every path (approximated by
+				// direct emissions only; calls are not used as dominators)
+				isTerm := func(n ast.Node) bool {
+					found := false
+					ast.Inspect(n, func(x ast.Node) bool {
+						if _, isLit := x.(*ast.FuncLit); isLit {
+							return false
+						}
+						if call, ok := x.(*ast.CallExpr); ok {
+							for _, e := range sc.Emits {
+								if e.ToDest && e.Kind != model.EmitNext && !e.Forwarder && !e.Deferred && e.Node == ast.Node(call) {
+									found = true
+								}
+							}
+						}
+						return !found
+					})
+					return found
+				}
+				cnt := 0
+				for _, e := range sc.Emits {
+					if !e.ToDest || e.Forwarder || e.Deferred {
+						continue
+					}
+					c.Inc("emissions_checked", 1)
+					// at each level: the emission itself, then the call sites of the closures it is inlined through
+					target := e.Node
+					fn := innermostFunc(m, e.Pkg, e.Node)
+					dead := false
+					for depth := len(e.Stack); fn != nil; depth-- {
+						if body := funcBody(fn); body != nil && pathsPassBefore(body, target, func(n ast.Node) bool {
+							return n != target && !(n.Pos() <= target.Pos() && target.End() <= n.End()) && isTerm(n)
+						}) {
+							dead = true
+							break
+						}
+						if depth <= 0 {
+							break
+						}
+						target = e.Stack[depth-1]
+						fn = innermostFunc(m, e.Pkg, target)
+					}
+					if dead {
+						cnt++
+						c.Report(armed, fmt.Sprintf("%s/%s/dead-emission#%d", sc, model.CtxKey(e.Ctx, e.Slot), cnt), e.Pos, "this %s notification is sent only after a terminal notification has already been sent to the destination on every path: it is always discarded (a result emitted after Complete is lost)", model.SlotNames[e.Kind])
+					}
+				}
+				if cnt == 0 && armed {
+					c.OK(sc.String()+"/dead-emission", sc.Lit.Pos(), "no notification is sent after a certain terminal")
+				}
+			}
+		},
+	}
+}
 
 func C04() *check.Property {
 	return &check.Property{
@@ -633,14 +716,14 @@ func C04() *check.Property {
 		Title:    "Each operator computes its documented function of the input sequence",
 		Patterns: cat(CorePatterns, PluginPkgs, []string{PromPkg}, RatePkgs),
 		Scope:    []string{ro},
-		Rules:    []check.Rule{ruleAdapter(), ruleAlias(), rulePipe(), ruleNoPostDeliveryMutation()},
+		Rules:    []check.Rule{ruleAdapter(), ruleAlias(), rulePipe(), ruleNoPostDeliveryMutation(), ruleDeadEmission()},
 		Explanation: "Narrow structural claim. The values each operator computes are NOT decided (no executable specification of ~150 operators is derivable from the source). Four clauses of the property are visible in the code's shape and are decided: " +
 			"(ADAPTER) plain / indexed / context-aware variants that delegate through a literal are pure adapters — user function called once, only the adapter's own parameters passed, the right context returned — hence observationally identical to the base form; " +
 			"(ALIAS) aliases forward every parameter exactly once; (PIPE) the 50 typed PipeN/PipeOpN apply their operators in order, so a chain is the composition of its parts; " +
-			"(NO-POST-DELIVERY-MUTATION) a slice/map that was emitted is never written again through the operator's retained variable.",
+			"(NO-POST-DELIVERY-MUTATION) a slice/map that was emitted is never written again through the operator's retained variable; (DEAD-EMISSION) no notification is sent at a point every path reaches only after a terminal notification to the same destination (a result written after Complete is always dropped).",
 		NotDecided:  "the function computed by every base form (ordering, loss, duplication, boundaries, parameters) and the reflective Pipe/PipeOp versus typed PipeN equivalence at run time.",
 		Assumptions: []string{"go/types (parametricity of the PipeN signatures)"},
-		Floors:      map[string]int{"adapters": 40, "aliases": 20, "pipe_functions": 48, "container_emissions": 6},
+		Floors:      map[string]int{"adapters": 40, "aliases": 20, "pipe_functions": 48, "container_emissions": 6, "emissions_checked": 400},
 		Controls:    map[string]string{"zz_verif_controls_c04.go": roControl(controlsC04)},
 	}
 }
